@@ -45,3 +45,19 @@ Definition shift_val (k : Z) (v : lineno_val) : lineno_val :=
 Definition base_of (section : text) (docstring_lineno linenumber : Z) : Z :=
   if uses_docstring_base section then (if docstring_lineno =? 0 then linenumber else docstring_lineno)
   else linenumber.
+
+(* ---- once ------------------------------------------------------------------------------------------- *)
+(* messages with the same (section, text) that are sent once-only are either all problems or all not: true of
+   pydoctor, where every once=True call site has its own section string and a fixed threshold *)
+Definition once_consistent (cs : list call) : Prop :=
+  forall c d, In c cs -> In d cs -> c_once c = true -> c_once d = true ->
+    key_eqb (call_key c) (call_key d) = true -> is_problem c = is_problem d.
+
+(* the abstract view: how often a (section, message) pair should be counted *)
+Definition has_key (k : key) (c : call) : bool := key_eqb k (call_key c).
+Definition plain_problems (k : key) (cs : list call) : nat :=
+  length (filter (fun c => has_key k c && negb (c_once c) && is_problem c) cs).
+Definition once_problem (k : key) (cs : list call) : bool :=
+  existsb (fun c => has_key k c && c_once c && is_problem c) cs.
+Definition abstract_count (k : key) (cs : list call) : nat :=
+  plain_problems k cs + (if once_problem k cs then 1 else 0).
